@@ -509,9 +509,50 @@ impl Write for ShortWriter {
         self.buf.extend_from_slice(&b[..n]);
         Ok(n)
     }
+    // gathered writes: at most k bytes in total, so the accepted count may end inside a buffer
+    fn write_vectored(&mut self, bufs: &[std::io::IoSlice<'_>]) -> std::io::Result<usize> {
+        let mut left = self.k;
+        let mut n = 0;
+        for b in bufs {
+            let m = b.len().min(left);
+            self.buf.extend_from_slice(&b[..m]);
+            left -= m;
+            n += m;
+            if left == 0 {
+                break;
+            }
+        }
+        Ok(n)
+    }
     fn flush(&mut self) -> std::io::Result<()> {
         Ok(())
     }
+}
+
+/// drives `write_vectored` the way `write_all_vectored` would: random gather lists, resubmitting what was not accepted
+fn write_all_gathered<W: Write>(w: &mut W, d: &[u8], rng: &mut StdRng) -> std::io::Result<()> {
+    let mut off = 0;
+    while off < d.len() {
+        let mut cuts = vec![off];
+        let mut p = off;
+        for _ in 0..rng.gen_range(1..5) {
+            if p >= d.len() {
+                break;
+            }
+            p += rng.gen_range(0..=(d.len() - p).min(300));
+            cuts.push(p);
+        }
+        if *cuts.last().unwrap() == off {
+            cuts.push((off + 1).min(d.len()));
+        }
+        let slices: Vec<std::io::IoSlice<'_>> = cuts.windows(2).map(|c| std::io::IoSlice::new(&d[c[0]..c[1]])).collect();
+        let n = w.write_vectored(&slices)?;
+        if n == 0 {
+            return Err(std::io::ErrorKind::WriteZero.into());
+        }
+        off += n;
+    }
+    Ok(())
 }
 
 fn data_family(t: &mut Tables, rng: &mut StdRng, short_writer: bool) -> Vec<String> {
@@ -776,8 +817,15 @@ pub fn run(a: &Args) -> anyhow::Result<String> {
                     let sh = w.hash();
                     let inner_ok = r.is_ok() && w.into_inner().buf == d;
                     ev.push(json!({"ev":"MtData","did":did,"n":d.len(),"path":"HashedWrite/short_sink","k":k,"inner_ok":inner_ok,"id":t.hid(&mh(&sh))}).to_string());
+                    // the gathered-write entry point of io::Write over the same sinks
+                    let mut w = HashedWrite::new(ShortWriter { buf: Vec::new(), k });
+                    let r = write_all_gathered(&mut w, &d, &mut rng);
+                    let _ = w.flush();
+                    let sh = w.hash();
+                    let inner_ok = r.is_ok() && w.into_inner().buf == d;
+                    ev.push(json!({"ev":"MtData","did":did,"n":d.len(),"path":"HashedWrite/gathered","k":k,"inner_ok":inner_ok,"id":t.hid(&mh(&sh))}).to_string());
                     ev.push(json!({"ev":"MtData","did":did,"n":d.len(),"path":"ref","id":t.hid(&merkleref::chunk_hash(&d))}).to_string());
-                    t.add("datas_short_sink", 1);
+                    t.add("datas_short_sink", 2);
                 }
                 if sample.is_empty() {
                     sample = ev.iter().take(3).cloned().collect();
